@@ -192,16 +192,22 @@ func ZZC09Missing() {
 		{"{\n  @b: @a\n}", []string{"@b", "@a"}},
 		{"{\n  @b: [\n    @a\n  ],\n  \"k\": 1\n}", []string{"@b", "@a"}},
 		{"{\n  \"x\": @a | @b, // {optional: true}\n  \"y\": { // {allOf: \"@a\"}\n    \"q\": @b\n  }\n}", []string{"@a", "@b"}},
+		{"{\n  @b: 1,\n  @c: 2\n}", []string{"@b", "@c"}},
+		{"{\n  @c: 1,\n  \"k\": 3,\n  @b: 2\n}", []string{"@c", "@b"}},
+		{"{\n  \"o\": {\n    @b: 1,\n    @c: @a\n  }\n}", []string{"@b", "@c", "@a"}},
 	}
 	f := forms[v.Choose(0, len(forms)-1)]
 	v.Observe("schema", f.text)
 	s := jschema.New("s", f.text)
-	missing := v.Choose(-1, 1) // -1: nothing missing; 0: @a missing; 1: @b missing
+	missing := v.Choose(-1, 2) // -1: nothing missing; 0: @a missing; 1: @b missing; 2: @c missing
 	if missing != 0 {
 		v.Assert(s.AddType("@a", jschema.New("@a", `{"p": 1}`)) == nil, "C09/addtype-failed")
 	}
 	if missing != 1 {
 		v.Assert(s.AddType("@b", jschema.New("@b", `"kk"`)) == nil, "C09/addtype-failed")
+	}
+	if missing != 2 {
+		v.Assert(s.AddType("@c", jschema.New("@c", `"cc" // {minLength: 1}`)) == nil, "C09/addtype-failed")
 	}
 	v.Observe("missing", missing)
 	used, uerr := s.UsedUserTypes()
@@ -226,7 +232,7 @@ func ZZC09Missing() {
 	referenced := false
 	want := ""
 	if missing >= 0 {
-		want = []string{"@a", "@b"}[missing]
+		want = []string{"@a", "@b", "@c"}[missing]
 		for _, nm := range f.names {
 			if nm == want {
 				referenced = true
@@ -252,6 +258,7 @@ func init() {
 	ZZHarnesses["ZZC09Graph"] = ZZC09Graph
 	ZZHarnesses["ZZC09Missing"] = ZZC09Missing
 	ZZHarnesses["ZZC09AllOf"] = ZZC09AllOf
+	ZZHarnesses["ZZC09OrTypes"] = ZZC09OrTypes
 }
 
 // ZZC09AllOf: every type may inherit (allOf) from one other type; a cycle of parents anywhere must be
@@ -315,6 +322,78 @@ func ZZC09AllOf() {
 	if cerr != nil {
 		return
 	}
+	ex, eerr := root.Example()
+	v.Assert(eerr == nil, "C09/example-fails-on-accepted-graph")
+	if eerr == nil {
+		v.Assert(root.Validate(json.New("d", ex)) == nil, "C09/example-of-accepted-graph-rejected")
+	}
+}
+
+// ZZC09OrTypes: user types whose body is an or shortcut over other types, themselves or a leaf.
+// A type has a finite instance iff some member has one (least fixpoint); Check accepts the root
+// iff it has one, and on accepted graphs validation terminates: the leaf value is accepted iff
+// the leaf is reachable through or members, a value of another kind is rejected.
+func ZZC09OrTypes() {
+	n := v.Param("types", 2)
+	members := make([][]int, n) // member index n = @leaf
+	for i := 0; i < n; i++ {
+		k := v.Choose(1, 2)
+		for j := 0; j < k; j++ {
+			members[i] = append(members[i], v.Choose(0, n))
+		}
+	}
+	name := func(j int) string {
+		if j == n {
+			return "@leaf"
+		}
+		return c09Name(j)
+	}
+	root := jschema.New("root", "@T0")
+	desc := ""
+	for i := 0; i < n; i++ {
+		t := ""
+		for j, m := range members[i] {
+			if j > 0 {
+				t += " | "
+			}
+			t += name(m)
+		}
+		desc += c09Name(i) + "=" + t + " "
+		v.Assert(root.AddType(c09Name(i), jschema.New(c09Name(i), t)) == nil, "C09/addtype-failed")
+	}
+	v.Assert(root.AddType("@leaf", jschema.New("@leaf", "7")) == nil, "C09/addtype-failed")
+	v.Observe("graph", desc)
+	inh := make([]bool, n)
+	for round := 0; round <= n; round++ {
+		for i := 0; i < n; i++ {
+			for _, m := range members[i] {
+				if m == n || inh[m] {
+					inh[i] = true
+				}
+			}
+		}
+	}
+	// fingerprint of the known finding: the loop leaves type 0
+	cyc := "single-type-cycle"
+	for _, m := range members[0] {
+		if m != 0 {
+			cyc = "cycle-through-several-types"
+		}
+	}
+	v.Observe("cycle", cyc)
+	cerr := root.Check()
+	if !inh[0] {
+		v.Reach("C09/or-types-infinite")
+		v.Assert(cerr != nil, "C09/infinite-recursion-accepted")
+		return
+	}
+	v.Reach("C09/or-types-finite")
+	v.Assert(cerr == nil, "C09/finite-graph-rejected")
+	if cerr != nil {
+		return
+	}
+	v.Assert(root.Validate(json.New("d", "5")) == nil, "C09/or-types-leaf-value-rejected")
+	v.Assert(root.Validate(json.New("d", `"s"`)) != nil, "C09/or-types-foreign-value-accepted")
 	ex, eerr := root.Example()
 	v.Assert(eerr == nil, "C09/example-fails-on-accepted-graph")
 	if eerr == nil {
